@@ -34,22 +34,71 @@ pub struct PropCfg {
     pub stub: &'static [&'static str],
 }
 
+const R_REAL: &[&str] = &["log4rs RollingFileAppender", "CompoundPolicy", "SizeTrigger / TimeTrigger / OnStartUpTrigger", "FixedWindowRoller / DeleteRoller (rotate, move_file incl. real EXDEV copy+delete on a second mount)", "parking_lot::Mutex", "chrono Local (POSIX TZ rules)", "kernel tmpfs + second filesystem"];
+const R_STUB: &[&str] = &["transparent probes around the real trigger, roller and encoder (record what was consulted, never alter it)", "ScriptTrigger (user-defined pre/post trigger)", "ChunkEncoder in half of the runs", "wall clock (interposed clock_gettime)", "TimeTrigger's random delay (rand_below hook)", "thread scheduler (baton)"];
+
 pub fn props() -> Vec<PropCfg> {
-    vec![PropCfg {
-        id: "C04",
-        profiles: &[("C04", 1)],
-        quick_runs: 4000,
-        thorough_runs: 300_000,
-        level: "exploration",
-        rule: "one case = one seeded scenario (pre-existing file, open modes, 1-4 threads x records sized around the 1 KiB buffer, up to 3 restart phases, encoder kind) executed under one seeded schedule; non-trivial = at least two append calls overlapped in time (a thread was switched out between invoke and return of its append while another invoked); distinct = distinct event-log fingerprints (FNV-1a over every decision, invoke/return and fault event)",
-        assumptions: &[
-            "crash model: none (C04 quantifies over schedules and restarts only)",
-            "the filesystem is the kernel's tmpfs; reads through a second handle see what write(2) has delivered",
-            "thread interleavings are explored at hook/seam granularity (before the lock, between encoder chunks, between encode and flush, at return), not at instruction granularity",
-        ],
-        real: &["log4rs::append::file::FileAppender", "SimpleWriter<BufWriter<File>>", "parking_lot::Mutex", "PatternEncoder({m}) in 1/3 of runs", "kernel tmpfs"],
-        stub: &["ChunkEncoder (harness Encode impl with decision points between write calls) in 2/3 of runs", "thread scheduler (baton)"],
-    }]
+    vec![
+        PropCfg {
+            id: "C04",
+            profiles: &[("C04", 1)],
+            quick_runs: 4000,
+            thorough_runs: 300_000,
+            level: "exploration",
+            rule: "one case = one seeded scenario (pre-existing file, open modes, 1-4 threads x records sized around the 1 KiB buffer, up to 3 restart phases, encoder kind) executed under one seeded schedule; non-trivial = at least two append calls overlapped in time (a thread was switched out between invoke and return of its append while another invoked); distinct = distinct event-log fingerprints (FNV-1a over every decision, invoke/return and fault event)",
+            assumptions: &[
+                "crash model: none (C04 quantifies over schedules and restarts only)",
+                "the filesystem is the kernel's tmpfs; reads through a second handle see what write(2) has delivered",
+                "thread interleavings are explored at hook/seam granularity (before the lock, between encoder chunks, between encode and flush, at return), not at instruction granularity",
+            ],
+            real: &["log4rs::append::file::FileAppender", "SimpleWriter<BufWriter<File>>", "parking_lot::Mutex", "PatternEncoder({m}) in 1/3 of runs", "kernel tmpfs"],
+            stub: &["ChunkEncoder (harness Encode impl with decision points between write calls) in 2/3 of runs", "thread scheduler (baton)"],
+        },
+        PropCfg {
+            id: "C05",
+            profiles: &[("C05", 1)],
+            quick_runs: 6000,
+            thorough_runs: 300_000,
+            level: "exploration",
+            rule: "one case = one seeded history (pre-existing active file/archives/bystanders, trigger in {size,time,on-start-up,scripted pre/post}, roller in {delete, fixed window base/count/pattern incl. second mount}, 1-3 writer threads, clean/dirty restarts in either mode) under one seeded schedule, compared byte-for-byte with the directory model after every append; non-trivial = at least one rotation completed; distinct = distinct event-log fingerprints",
+            assumptions: &["no fault is injected in this configuration (faults are C08's)", "dirty restarts happen only while no append is in flight", "interleavings at hook/seam granularity"],
+            real: R_REAL,
+            stub: R_STUB,
+        },
+        PropCfg {
+            id: "C06",
+            profiles: &[("C06", 1)],
+            quick_runs: 6000,
+            thorough_runs: 300_000,
+            level: "exploration",
+            rule: "world R restricted to the real SizeTrigger; record lengths are aimed at limit-1/limit/limit+1 of the running file size; at every consultation the size shown to the policy is compared with fs::metadata, and after every append rotation-iff-over-limit is checked against the byte model; non-trivial = at least one rotation completed; distinct = distinct event-log fingerprints",
+            assumptions: &["no fault injected", "size aiming is exact for single-writer phases and approximate under concurrency"],
+            real: R_REAL,
+            stub: R_STUB,
+        },
+        PropCfg {
+            id: "C16",
+            profiles: &[("C16", 7), ("C16-huge", 1)],
+            quick_runs: 8000,
+            thorough_runs: 500_000,
+            level: "exploration",
+            rule: "world R with the real TimeTrigger on the simulated wall clock: 8 POSIX TZ rules (fixed offsets and DST incl. 30-minute and local-midnight transitions) x 7 units x multipliers x modulate x random-delay bound; start instants and clock moves biased to scheduled-1s/scheduled/+1s, unit boundaries, leap day, month/year/ISO-week-year ends, DST gaps and overlaps, backward jumps; every (re)schedule is checked against the calendar oracle; non-trivial = the trigger fired at least once; distinct = distinct event-log fingerprints; profile C16-huge only asserts the no-panic clause for multipliers up to i64::MAX",
+            assumptions: &["chrono's UTC->local conversion and naive calendar arithmetic are trusted (the oracle never maps local->UTC through the zone)", "the boundary equation is asserted only when the zone offset is identical at start-of-unit, now and the scheduled instant"],
+            real: R_REAL,
+            stub: R_STUB,
+        },
+        PropCfg {
+            id: "C17",
+            profiles: &[("C17", 1)],
+            quick_runs: 6000,
+            thorough_runs: 300_000,
+            level: "exploration",
+            rule: "world R restricted to the real OnStartUpTrigger: pre-existing sizes around min_size (incl. 0 and min_size 0), 1-4 threads racing for the first append, restarts re-arming the trigger; non-trivial = a rotation happened or the first appends overlapped; distinct = distinct event-log fingerprints",
+            assumptions: &["no fault injected"],
+            real: R_REAL,
+            stub: R_STUB,
+        },
+    ]
 }
 
 pub fn prop(id: &str) -> Option<PropCfg> {
@@ -392,6 +441,14 @@ pub fn check(args: &CheckArgs) -> i32 {
     let mut violation_lines = vec![];
     let mut known_lines = vec![];
     let replay_dir = verif_root().join("replays");
+    // replay files of earlier runs of this property are stale
+    if let Ok(rd) = fs::read_dir(&replay_dir) {
+        for e in rd.flatten() {
+            if e.file_name().to_string_lossy().starts_with(&format!("{}-", cfg.id)) {
+                let _ = fs::remove_file(e.path());
+            }
+        }
+    }
     let mut files = total.violation_files.clone();
     files.sort();
     for f in &files {
